@@ -384,6 +384,15 @@ def canon_jv(e):
     return tuple(e)
 
 
+def _odd(usage, argv):
+    return dict(lines=[('raw', usage)], with_opts=False, argv=argv, usage=usage, outs=[{}], ref=None, classes=[])
+
+
+# usage words outside the enumerated grammar that reach the classification / binding code of the last stage
+ODD_TAIL = [_odd(u, a) for u in ("<aB", "<a", "AB", "A-B", "A_B+", "<a-b>", "<a_b>...", "aB", "a-b", "a_b c-d", "<x>B", "<x>b", "a+", "A+", "<a>+", "X <x>", "x <x>", "x X")
+            for a in ([], ["v"], ["v", "w"], ["a-b"], ["a_b", "c-d"], ["x", "v"])]
+
+
 def tail_correspondence(run, recs, cap):
     """the mirror of docopt's last stage (Tail.v), fed with the normalised argv, sorted expanded usages and
     option descriptors the implementation itself computed (rash_verif hook), must give the implementation's answer"""
@@ -394,7 +403,7 @@ def tail_correspondence(run, recs, cap):
         acc = run.rng.sample(acc, cap // 2)
     if len(rej) > cap - len(acc):
         rej = run.rng.sample(rej, cap - len(acc))
-    sel = acc + rej
+    sel = acc + rej + ODD_TAIL
     touts = C.run_harness("docopt", [dict(file=D.script_text(r["lines"], r["with_opts"]), args=r["argv"], trace=True) for r in sel], per_case_timeout=20)
     lines, idx = [], []
     for i, o in enumerate(touts):
